@@ -48,8 +48,8 @@ func lockPairing(c *core.Ctx, lc *core.LockCache, rule string, fns []*ssa.Functi
 
 // guardedField is one row of a guarded-by table.
 type guardedField struct {
-	Rel, Struct, Field string // field Rel.Struct.Field …
-	Mutex              string // … is protected by Rel.Struct.Mutex (a hint: the guard is inferred if renamed)
+	Rel, Struct, Field string     // field Rel.Struct.Field …
+	Mutex              string     // … is protected by Rel.Struct.Mutex (a hint: the guard is inferred if renamed)
 	Var                *types.Var // the field, when the caller resolved it by role
 	Reason             string
 	// ReadsUnlocked lists functions (FuncKey) allowed to read without the
@@ -80,7 +80,16 @@ func isFresh(v ssa.Value) bool {
 		return false
 	}
 	_, isStruct := pt.Elem().Underlying().(*types.Struct)
-	return isStruct && len(p.Fields) == 0
+	if !isStruct {
+		return false
+	}
+	// the struct itself, or a struct it holds by value (part of the same allocation)
+	for _, f := range p.Fields {
+		if _, inner := f.Type().Underlying().(*types.Struct); !inner {
+			return false
+		}
+	}
+	return true
 }
 
 // fieldAccesses enumerates reads and writes of struct field fld in fn.
@@ -288,7 +297,10 @@ func guardedBy(c *core.Ctx, lc *core.LockCache, el *entryLocks, rule string, g g
 	}
 	fld := g.Var
 	if fld == nil {
-		fld = c.FieldT(st, g.Field, fieldType[row])
+		// the field itself, or the field moved with its mutex into a struct of its own
+		if owner, f := fldNested(c, g.Rel, g.Struct, g.Field, fieldType[row]); f != nil {
+			st, fld = owner, f
+		}
 	}
 	if fld == nil {
 		c.Undecided(rule, row, token.NoPos, "field no longer exists: the guarded-by table must be re-confirmed")
